@@ -350,6 +350,9 @@ type world struct {
 	phaseFinal  bool
 	tmpRoot     string
 	lastAckStep int
+	lastProposeStep int
+	finalAcked      map[multiraft.SlotID]bool
+	finalPending    map[multiraft.SlotID]bool
 	transfers   int
 	compacts    int
 	liveRestore int
